@@ -648,6 +648,33 @@ fn inject(family: &str, variant: &str, xmp: &str) -> Option<(&'static str, Vec<u
     })
 }
 
+/// Removes top-level `C2PA` chunks of the first RIFF chunk and fixes its size field.
+fn riff_strip_c2pa(data: &[u8]) -> Option<Vec<u8>> {
+    if data.len() < 12 || &data[..4] != b"RIFF" {
+        return None;
+    }
+    let riff_len = u32::from_le_bytes(data[4..8].try_into().ok()?) as usize;
+    let end = (8 + riff_len).min(data.len());
+    let mut out = data[..12].to_vec();
+    let mut i = 12;
+    while i + 8 <= end {
+        let l = u32::from_le_bytes(data[i + 4..i + 8].try_into().ok()?) as usize;
+        let total = 8 + l + (l & 1);
+        if i + total > end + 1 {
+            return None;
+        }
+        let stop = (i + total).min(end);
+        if &data[i..i + 4] != b"C2PA" {
+            out.extend_from_slice(&data[i..stop]);
+        }
+        i = stop;
+    }
+    let new_len = (out.len() - 8) as u32;
+    out[4..8].copy_from_slice(&new_len.to_le_bytes());
+    out.extend_from_slice(&data[end..]);
+    Some(out)
+}
+
 fn family_of(fmt: &str) -> &'static str {
     match fmt {
         "jpg" | "jpeg" => "jpeg",
@@ -791,7 +818,7 @@ fn sign(c: &Case) -> Result<c2pa::Result<Vec<u8>>, String> {
     report::catch_sdk(|| {
         let ctx = Context::new().with_settings(settings().as_str())?;
         let mut b = Builder::from_context(ctx).with_definition(json!({"title": "c30", "assertions": [{"label": "org.verif.test", "data": {"k": 1}}]}))?;
-        b.set_intent(c2pa::BuilderIntent::Edit);
+        b.set_intent(c2pa::BuilderIntent::Create(c2pa::DigitalSourceType::DigitalCapture));
         b.set_remote_url(c.url.clone());
         b.set_no_embed(!c.embed);
         let signer = signers::test_signer("ed25519");
@@ -909,6 +936,8 @@ fn run_case(c: &Case) -> Res {
         }
     }
     let write_ok = embedded.is_some();
+    // the char class that matters for the XMP layer is that of the string that reached it
+    let chars = embedded.as_deref().map(special_chars).unwrap_or(chars);
     res.counters.push((format!("out_packets:{}", out_packets.len().min(3)), 1));
 
     // ---- preservation
@@ -943,10 +972,18 @@ fn run_case(c: &Case) -> Res {
     // ---- read side
     let (subject, stripped) = if c.embed {
         // with an embedded manifest the reader does not consult the reference; remove the manifest first
-        let r = report::catch_sdk(|| {
-            let mut dst = Cursor::new(Vec::new());
-            verif_hooks::remove_jumbf_from_stream(c.fmt, &mut Cursor::new(out.clone()), &mut dst).map(|_| dst.into_inner())
-        });
+        let r = if c.family == "riff" {
+            // the SDK's RIFF removal is a no-op (write_cai with an empty store keeps the chunk): strip it here
+            match riff_strip_c2pa(&out) {
+                Some(b) => Ok(Ok(b)),
+                None => Err("riff strip failed".to_string()),
+            }
+        } else {
+            report::catch_sdk(|| {
+                let mut dst = Cursor::new(Vec::new());
+                verif_hooks::remove_jumbf_from_stream(c.fmt, &mut Cursor::new(out.clone()), &mut dst).map(|_| dst.into_inner())
+            })
+        };
         match r {
             Ok(Ok(b)) => (b, true),
             _ => {
